@@ -19,6 +19,19 @@ compressed). `Backend::read_xref_table_and_trailer` merges the sections newest f
 The theorems below are about the model in `Model/Xref.lean`; the correspondence check for C02 ties
 `addSub`/`mergeAll`/`lookup` to `XRefTable::add_entries_from`, `read_xref_table_and_trailer` and
 `Storage::resolve_ref` of the current source tree.
+
+What the theorems cover and what they do not.  Proved here: which *entry* (location: offset / object stream and
+index / free / invalid) the merged table holds for an object number (`merge_newest_wins`, `resolve_latest`,
+`free_or_missing_never_stale`), for histories and — through both byte-level section readers and the `/Prev` walk —
+for the bytes of a file (`file_walk_newest_wins`, `file_walk_newest_wins_filtered`), and that the trailer returned is
+the newest one (`trailer_is_newest`).  `WF h id` is a hypothesis throughout: generation numbers of an object
+number never decrease towards the newest mention (what "well-formed file" means for the merge rule).
+The `*_history_newest_wins*` theorems are conjunctions (every section is read back by its reader; the merge of
+those sections is newest-wins), not one function from bytes to table.
+Not a theorem, oracle / correspondence only: that resolving the object number then yields the *value* written by
+that update (object bodies are not modelled here; the oracle `c02.latest` compares planted markers on generated
+multi-revision files, and C11 / C17 own the models of `resolve_ref`); where `startxref` points
+(`locateXref buf = .ok off` is a hypothesis of the walk theorems; modelled under C17).
 -/
 
 namespace Xref
@@ -131,8 +144,9 @@ theorem free_or_missing_never_stale (size : Nat) (h : List (List Sub)) (id : Nat
   · rintro ⟨n, g, hf⟩; rw [hl]; simp [expected, hf]
   · intro hn; rw [hl]; simp [expected, hn, hid]
 
-/-- Subsection splitting is irrelevant: two sections that list the same (number, entry) pairs in the
-    same order merge identically, in particular one run versus the same run cut at any point. -/
+/-- Subsection splitting, **one cut**: a run of entries written as one subsection merges exactly as the same run
+    cut at any one point into two consecutive subsections. (The general statement — any number of cuts — is
+    `split_irrelevant_general` below; subsections in a different *order* are not covered by either.) -/
 theorem split_irrelevant (t : Table) (first : Nat) (a b : List XRef) :
     addSubs t [⟨first, a ++ b⟩] = addSubs t [⟨first, a⟩, ⟨first + a.length, b⟩] := by
   have key : ∀ (a : List XRef) (t : Table) (i : Nat),
@@ -154,6 +168,54 @@ theorem split_irrelevant (t : Table) (first : Nat) (a b : List XRef) :
   rw [key]
   cases addFrom t first a <;> simp
 
+
+/-- a run starting at `first`, cut into consecutive subsections with the given pieces -/
+def cutRun (first : Nat) : List (List XRef) → List Sub
+  | [] => []
+  | p :: ps => ⟨first, p⟩ :: cutRun (first + p.length) ps
+
+/-- **Subsection splitting is irrelevant (any partition).** A run of entries written as one subsection merges
+    exactly as the same run cut at any number of points into consecutive subsections (pieces of any length,
+    empty ones included): same table, same error / panic outcome.  By induction on the list of pieces. -/
+theorem split_irrelevant_general (first : Nat) (parts : List (List XRef)) :
+    ∀ t : Table, addSubs t [⟨first, parts.flatten⟩] = addSubs t (cutRun first parts) := by
+  have single : ∀ (t : Table) (s : Sub), addSubs t [s] = addFrom t s.first s.entries := by
+    intro t s
+    simp only [addSubs, addSub]
+    cases addFrom t s.first s.entries <;> rfl
+  have app : ∀ (b a : List XRef) (t : Table) (i : Nat),
+      addFrom t i (a ++ b) = match addFrom t i a with
+        | .ok t' => addFrom t' (i + a.length) b
+        | .err => .err | .panic => .panic | .oof => .oof := by
+    intro b a
+    induction a with
+    | nil => intro t i; simp [addFrom]
+    | cons e es ih =>
+      intro t i
+      simp only [List.cons_append, addFrom, List.length_cons]
+      cases addEntry t i e with
+      | ok t' => simp only; rw [ih]; simp [Nat.add_assoc, Nat.add_comm 1]
+      | err => rfl
+      | panic => rfl
+      | oof => rfl
+  induction parts generalizing first with
+  | nil => intro t; simp [cutRun, addSubs, addSub, addFrom]
+  | cons p ps ih =>
+    intro t
+    rw [single]
+    simp only [List.flatten_cons, cutRun, addSubs, addSub]
+    rw [app]
+    cases addFrom t first p with
+    | ok t' =>
+      simp only
+      rw [← ih (first + p.length) t', single]
+    | err => rfl
+    | panic => rfl
+    | oof => rfl
+
+/-- three pieces, one of them empty -/
+example : cutRun 4 [[.raw 1 0], [], [.free 0 1, .stream 9 0]]
+    = [⟨4, [.raw 1 0]⟩, ⟨5, []⟩, ⟨5, [.free 0 1, .stream 9 0]⟩] := by decide
 
 /-! ## Cross-reference streams: the byte-level section reader returns what a conforming writer wrote -/
 
@@ -205,10 +267,13 @@ example : ∀ e ∈ [XRef.free 0 65535, .raw 1234 0, .stream 7 3], Fits 1 2 2 e 
 example : parseSection 0 3 [1, 2, 2] (encodeRows 1 2 2 [.free 0 65535, .raw 1234 0, .stream 7 3]) false
     = .ok (⟨0, [.free 0 65535, .raw 1234 0, .stream 7 3]⟩, []) := by decide
 
-/-- **C02, file → table, stream format.** A history whose sections are all written as cross-reference
-    streams (any widths per section, any subsection splitting) is read and merged to the table that
-    holds the newest mention of every well-formed object number: the composition of the byte-level
-    reader with `merge_newest_wins`. `enc` describes the file: per section its widths and its bytes. -/
+/-- **C02, stream format, sections and merge side by side.** For a history whose sections are all written as
+    (unfiltered) cross-reference streams — `widths` gives the `/W` triple chosen for each section, any
+    subsection splitting — the statement is a *conjunction* of two facts about the same sections: (a) for every
+    section the row reader `parseSections`, applied to the big-endian rows of that section, returns the
+    section; (b) `merge_newest_wins` for the history.  It is not a statement about one function from the bytes
+    of a file to the table; that composition (through the `/Prev` walk and the section head) is
+    `file_walk_newest_wins_filtered`. -/
 theorem stream_history_newest_wins (size : Nat) (h : List (List Sub)) (id : Nat) (hid : id < size)
     (wf : WF h id) (allowErr : Bool)
     (widths : List Sub → Nat × Nat × Nat)
@@ -300,10 +365,11 @@ theorem table_section_with_trailer_reads_back (env : Env R) (hd : env.decrypt = 
     xrefAt env stm (txt ++ rest) = .ok (subs, d) :=
   xrefAt_table env hd stm subs d dtxt txt rest hst hsp hwf hdepth hsz hah
 
-/-- **C02, file → table, classic format.** A history whose sections are all written as classic tables
-    (`secs`: every section with its text, oldest first), each in any legal layout, is read back section by
-    section and merged to the table that holds the newest mention of every well-formed object number: the
-    byte-level reader composed with `merge_newest_wins`. -/
+/-- **C02, classic format, sections and merge side by side.** For a history whose sections are all written as
+    classic tables (`secs`: every section with its text, oldest first, each in any legal layout) the statement is
+    a *conjunction*: (a) wherever the text of a section stands in a buffer, `parseTable` returns that section
+    (`table_section_reads_back` for each); (b) `merge_newest_wins` for the history.  The composition from the
+    bytes of one file through the `/Prev` walk to the table is `table_file_newest_wins` / `file_walk_newest_wins`. -/
 theorem table_history_newest_wins (size : Nat) (secs : List (List Sub × List UInt8)) (id : Nat) (hid : id < size)
     (wf : WF (secs.map (·.1)) id) (hw : ∀ s ∈ secs, TableText s.1 s.2) :
     (∀ s ∈ secs, ∀ {buf : Buf} (g rest : List UInt8) (p : Nat), Gap g → Bnd rest →
@@ -339,9 +405,11 @@ def ReadsBack (allowErr : Bool) (sec : List Sub) : Stored → Prop
 
 /-- **C02, mixed formats: "each update may use a classic table or a cross-reference stream".** Every section
     of the history (`secs`: section and how it is stored, oldest first) independently in either format (any
-    layout / any widths, any subsection splitting):
-    each is read back by the reader of its format, and the merge of what was read holds the newest mention
-    of every well-formed object number. -/
+    layout / any widths, any subsection splitting).  A *conjunction*: (a) each section is read back by the
+    reader of its format (`ReadsBack`: `parseTable` on its text, or `parseSections` on its rows); (b) the merge
+    of the sections holds the newest mention of every well-formed object number (`merge_newest_wins`).  The
+    two halves share the sections, not a function: the end-to-end statement over the bytes of a file is
+    `file_walk_newest_wins` (and `…_filtered`). -/
 theorem file_history_newest_wins (size : Nat) (secs : List (List Sub × Stored)) (id : Nat) (hid : id < size)
     (wf : WF (secs.map (·.1)) id) (allowErr : Bool) (hw : ∀ s ∈ secs, StoredOK s.1 s.2) :
     (∀ s ∈ secs, ReadsBack allowErr s.1 s.2) ∧
@@ -618,9 +686,10 @@ def ReadsBackF (X : Ext) (allowErr : Bool) (sec : List Sub) : StoredF → Prop
 
 /-- **C02, mixed formats with filters.** Every section of the history independently a classic table (any
     layout), an unfiltered cross-reference stream, or a filtered one (any conforming filter chain, e.g. Flate
-    with a PNG predictor and any row filter types): each is read back by the reader of its format — for the
-    filtered ones the C05 filter model followed by the row reader — and the merge holds the newest mention of
-    every well-formed object number. -/
+    with a PNG predictor and any row filter types).  A *conjunction*, as `file_history_newest_wins`: (a) each
+    section is read back by the reader of its format — for the filtered ones the C05 filter model followed by
+    the row reader; (b) the merge of the sections holds the newest mention of every well-formed object number.
+    End to end over the bytes of a file: `file_walk_newest_wins_filtered`. -/
 theorem file_history_newest_wins_filtered (X : Ext) (size : Nat) (secs : List (List Sub × StoredF)) (id : Nat)
     (hid : id < size) (wf : WF (secs.map (·.1)) id) (allowErr : Bool) (hw : ∀ s ∈ secs, StoredFOK X s.1 s.2) :
     (∀ s ∈ secs, ReadsBackF X allowErr s.1 s.2) ∧
@@ -911,6 +980,83 @@ example : (match XrefSec.loadTableC exEnv (XrefFilters.decOf fxExt false) false 
     | _ => false) = true := by decide +kernel
 
 end FilteredExample
+
+/-! ### Non-vacuity (a mixed chain: older classic section, newer filtered stream section)
+
+`mxFile`: `%PDF-1.5`, the classic section of `exRev0` at offset 9 with its `startxref 9 %%EOF`, then at offset 116
+the update: object `1 0`, a cross-reference stream with `/Prev 9`, `/Filter /FlateDecode`, `/DecodeParms
+<< /Predictor 12 /Columns 5 >>` (rows as in `fxFile`).  `older = [exRev0] ≠ []`: the `/Prev` link, `ClassicAt` for the
+older and `StreamAt` for the newer section, and `WF` across both revisions are all proved. -/
+
+section MixedExample
+open Enc XrefFiltered PdfLex XrefTable Offsets
+
+/-- the stream dictionary of the update: `fxInfo` with `/Prev 9` -/
+def mxInfo : Dict Unit :=
+  [([84, 121, 112, 101], .name [88, 82, 101, 102]), ([83, 105, 122, 101], .int 6), ([87], .arr [.int 1, .int 2, .int 2]),
+   ([73, 110, 100, 101, 120], .arr [.int 0, .int 2, .int 5, .int 1]), ([80, 114, 101, 118], .int 9),
+   ([70, 105, 108, 116, 101, 114], .name [70, 108, 97, 116, 101, 68, 101, 99, 111, 100, 101]),
+   ([68, 101, 99, 111, 100, 101, 80, 97, 114, 109, 115], .dict [([80, 114, 101, 100, 105, 99, 116, 111, 114], .int 12), ([67, 111, 108, 117, 109, 110, 115], .int 5)]),
+   ([76, 101, 110, 103, 116, 104], .int 3)]
+def mxStreamText : List UInt8 := (PdfSpec.render (fun _ => [48, 46]) (Prim.stream mxInfo (.pending fxZ)) []).1
+def mxSection : List UInt8 := [49, 32, 48, 32, 111, 98, 106, 10] ++ mxStreamText ++ [10, 101, 110, 100, 111, 98, 106, 10, 115, 116, 97, 114, 116, 120, 114, 101, 102]
+/-- `\nstartxref\n9\n%%EOF\n` behind the first revision -/
+def mxMid : List UInt8 := [10, 115, 116, 97, 114, 116, 120, 114, 101, 102, 10, 57, 10, 37, 37, 69, 79, 70, 10]
+def mxTail : List UInt8 := [10, 49, 49, 54, 10, 37, 37, 69, 79, 70]
+def mxFile : List UInt8 := [37, 80, 68, 70, 45, 49, 46, 53, 10] ++ exSection exRev0 ++ mxMid ++ mxSection ++ mxTail
+def mxRev : Rev (Dict Unit) := ⟨116, fxSubs, mxInfo⟩
+
+theorem mx_classic : ClassicAt { exEnv with fileOffset := 0 } mxFile 0 exRev0 := by
+  refine ⟨exDictText exRev0, exSection exRev0, mxMid ++ mxSection ++ mxTail, by decide +kernel, by decide +kernel,
+    exSectionText _ (Or.inl rfl), exSpells _ (Or.inl rfl), ?_, by decide, ?_⟩
+  · simp [exRev0, PdfSyntax.WF, PdfSyntax.WFE, PdfSyntax.keysOf, keySize]; decide
+  · exact Or.inr ⟨(89, 98), by decide +kernel, by decide +kernel, by decide +kernel,
+      fun hi => absurd hi (by decide +kernel)⟩
+
+theorem mx_streamSectionText : StreamSectionText exEnv.parseReal mxInfo fxZ mxSection := by
+  refine ⟨[49], [32], [48], [32], [10], mxStreamText, [10], [10], [115, 116, 97, 114, 116, 120, 114, 101, 102], 1, 0, by decide +kernel,
+    ⟨by decide, by simp [PdfSyntax.Digits, PdfSyntax.isDig], by decide⟩, ⟨by decide, by simp [PdfSyntax.Digits, PdfSyntax.isDig], by decide⟩, by decide, by decide,
+    PdfSyntax.Gap.ws 32 [] (by decide) PdfSyntax.Gap.nil, by simp, PdfSyntax.Gap.ws 32 [] (by decide) PdfSyntax.Gap.nil, by simp,
+    PdfSyntax.Gap.ws 10 [] (by decide) PdfSyntax.Gap.nil, ?_, PdfSyntax.Gap.ws 10 [] (by decide) PdfSyntax.Gap.nil, by simp,
+    PdfSyntax.Gap.ws 10 [] (by decide) PdfSyntax.Gap.nil, by simp, by decide, by decide +kernel, by decide⟩
+  apply PdfSpec.render_stream_spells
+  simp [mxInfo, PdfSpec.RenderableE, PdfSpec.Renderable, PdfSpec.RenderableL]
+
+theorem mx_streamAt : StreamAt exEnv fxExt false mxFile 0 mxRev := by
+  refine ⟨fxZ, mxSection, mxTail, 1, 2, 2, 6, [.flate fxParams], by decide +kernel, by decide +kernel,
+    mx_streamSectionText, by simp [PdfSyntax.Bnd, mxTail]; decide, ?_, by decide +kernel, rfl, by decide, by decide +kernel,
+    by decide +kernel, by omega, by omega, by omega, fx_fits, by omega, pngFlate_filtered fxExt 1 2 2 fxSubs fx_fits fx_pngFlate⟩
+  show PdfSyntax.WFE mxInfo
+  simp only [mxInfo, PdfSyntax.WFE, PdfSyntax.WF, PdfSyntax.WFL, PdfSyntax.keysOf]
+  decide
+
+theorem mx_WF : ∀ id, id < 6 → WF (historyOf [mxRev, exRev0]) id := by
+  intro id hid
+  have : id = 0 ∨ id = 1 ∨ id = 2 ∨ id = 3 ∨ id = 4 ∨ id = 5 := by omega
+  rcases this with rfl | rfl | rfl | rfl | rfl | rfl <;>
+    (refine ⟨by unfold pairsOK; decide, ?_⟩
+     simp [historyOf, mxRev, exRev0, fxSubs, mentionsOf, mentions, allPairs, secPairs, subPairs, pairsFrom, keeps, gen])
+
+/-- **a mixed chain** (`older ≠ []`): all hypotheses of `file_walk_newest_wins_filtered` hold for `mxFile`, whose
+    first revision is a classic table (objects 0–2) and whose update is a `/Predictor 12` Flate cross-reference stream
+    with `/Prev 9` (object 1 moved, object 5 added in an object stream) -/
+theorem mxFile_newest_wins (id : Nat) (hid : id < 6) :
+    ∃ t, XrefSec.loadTableC exEnv (XrefFilters.decOf fxExt false) false exBase 5 mxFile 0 = .ok (t, mxInfo) ∧
+      t.length = 6 + 1 ∧ t[id]? = some ((latest (historyOf [mxRev, exRev0]) id).getD .invalid) :=
+  file_walk_newest_wins_filtered exEnv rfl fxExt false false exBase mxFile 0 5 (by decide +kernel) mxRev [exRev0] 6
+    (by decide +kernel) (by decide +kernel)
+    (by intro r hr; simp only [List.mem_cons, List.not_mem_nil, or_false] at hr
+        rcases hr with rfl | rfl
+        · exact Or.inr mx_streamAt
+        · exact Or.inl mx_classic)
+    rfl (by decide) ⟨rfl, rfl⟩ (by simp) (by simp) id hid (mx_WF id hid)
+
+/-- and the model computes the merged table from the bytes: object 1 from the update, object 2 from the original
+    table, object 5 compressed -/
+example : (match XrefSec.loadTableC exEnv (XrefFilters.decOf fxExt false) false exBase 5 mxFile 0 with
+    | .ok (t, _) => t == [.free 0 65535, .raw 17 0, .raw 20 0, .invalid, .invalid, .stream 9 2, .free 0 65535]
+    | _ => false) = true := by decide +kernel
+end MixedExample
 
 /-! ## The rule before the repair (D11) did not satisfy the property
 
